@@ -15,6 +15,10 @@ mod bcj2;
 mod codec;
 #[path = "../../scen/common.rs"]
 mod common;
+#[path = "../../scen/corrupt.rs"]
+mod corrupt;
+#[path = "../../scen/hostile.rs"]
+mod hostile;
 #[path = "../../scen/interop.rs"]
 mod interop;
 #[path = "../../scen/io_faults.rs"]
@@ -40,7 +44,7 @@ impl Engine for St {
     }
 
     fn properties(&self) -> Vec<&'static str> {
-        vec!["C01", "C02", "C03", "C05", "C07", "C11", "C12", "C13", "C16", "C18"]
+        vec!["C01", "C02", "C03", "C04", "C05", "C06", "C07", "C11", "C12", "C13", "C16", "C18"]
     }
 
     fn plan(&self, prop: &str, tier: &str) -> Vec<(String, u64)> {
@@ -52,6 +56,8 @@ impl Engine for St {
             "C02" => vec![p("rt.container", 40000, 1_500_000), p("rt.container.bias", 8000, 300_000), p("rt.container.big", 200, 6000)],
             "C03" => vec![p("interop.ours_to_ref", 15000, 500_000), p("interop.ref_to_ours", 8000, 300_000)],
             "C11" => vec![p("filter.inverse", 20000, 600_000), p("filter.ref", 12000, 400_000), p("bcj2.roundtrip", 6000, 200_000)],
+            "C04" => vec![p("corrupt.bitflip", 500, 8000), p("corrupt.random", 30000, 1_000_000), p("corrupt.field", 20000, 600_000), p("corrupt.nonformat", 10000, 200_000)],
+            "C06" => vec![p("hostile.random", 60000, 3_000_000), p("hostile.mutated", 30000, 1_000_000), p("hostile.fields", 12000, 300_000), p("hostile.params", 12000, 300_000), p("hostile.many", 60, 600)],
             "C07" => vec![p("history.write", 12000, 300_000), p("history.read", 12000, 300_000)],
             "C12" => vec![p("concat.xz", 40000, 1_000_000), p("concat.lzip", 20000, 500_000)],
             "C13" => vec![p("determ.repeat", 12000, 400_000), p("determ.partition", 12000, 400_000)],
@@ -68,6 +74,8 @@ impl Engine for St {
             "C01" | "C02" | "C07" | "C12" | "C13" | "C16" | "C18" => rt::gen(prop, scen, k, seed, tier),
             "C11" if scen.starts_with("bcj2") => bcj2::gen(prop, scen, k, seed, tier),
             "C03" | "C11" => interop::gen(prop, scen, k, seed, tier),
+            "C04" => corrupt::gen(prop, scen, k, seed, tier),
+            "C06" => hostile::gen(prop, scen, k, seed, tier),
             _ => Case::default(),
         };
         c.prop = prop.to_string();
@@ -84,6 +92,8 @@ impl Engine for St {
             "rt" | "history" | "determ" | "exact" | "sizes" | "concat" => rt::exec(case, keep_log),
             "interop" | "filter" => interop::exec(case, keep_log),
             "bcj2" => bcj2::exec(case, keep_log),
+            "corrupt" => corrupt::exec(case, keep_log),
+            "hostile" => hostile::exec(case, keep_log),
             _ => RunResult::default(),
         }
     }
@@ -116,6 +126,19 @@ impl Engine for St {
                 level: "exploration",
                 rule: "one run = (filter kind, start offset or distance, input class, length) -> filter.inverse / filter.ref / bcj2.roundtrip as described in the level text. Non-trivial: the filter changed at least one byte (bcj2: at least one branch converted).".into(),
                 assumptions: vec!["single write() per BCJWriter (split writes are C07's dimension, see KF-BCJWriter-split-writes)".into()],
+                real: real.clone(), stubs: stubs.clone(), exhaustive_part: None,
+            },
+            "C04" => PropMeta {
+                level: "fault_enumeration",
+                rule: "corrupt.bitflip: one run = one small valid XZ (check CRC32/CRC64/SHA-256) or LZIP file (<= ~450 bytes, 1-3 blocks/members) and EVERY single-bit flip of it (each flip is one evaluation). corrupt.random: 1-3 random storage faults (bit flip, substitution, zero-fill, delete, insert, duplicate, swap, truncate; 8% torn write = prefix of this file + tail of another valid file) on files up to 40 KB (600 KB thorough). corrupt.field: one header/size/CRC/control field (16 XZ fields, 7 LZIP fields) set to 0 / 1 / max / +1 / -1 / random, with and without CRC fix-up. corrupt.nonformat: random strings, other formats' magics, own magic + garbage, valid magic+version + bad header. Oracle: Err, or Ok with exactly the original; LZIP trailing-garbage rule as the property states it; damage that turned the file into another valid file (the reference implementation reads the damaged bytes to exactly what our reader returned) cannot be detected by any reader and is exempt. distinct = distinct (flip position, outcome, bytes delivered) per file + distinct digests of the other runs.".into(),
+                assumptions: vec!["bytes handed out before a block's check fails are not judged (a streaming decoder cannot hold them back); only what is reported as success is".into(), "liblzma decides whether a damaged file is in fact another valid file".into()],
+                real: real.clone(), stubs: stubs.clone(),
+                exhaustive_part: Some("all single-bit flips of every generated small file".into()),
+            },
+            "C06" => PropMeta {
+                level: "exploration",
+                rule: "hostile.random: random / low-entropy / zero strings, raw or behind the format's magic or a plausible header, into LZMA (.lzma header), LZMA2, XZ, LZIP, each BCJ, Delta and BCJ2 (four streams cut from the bytes) readers. hostile.mutated: valid streams with 1-4 storage faults, XZ header/footer CRCs recomputed in half of the runs so damage reaches LZMA2. hostile.fields: one size/count/property field at an extreme (index record count up to 2^62 with CRC fix-up, dictionary property 40, LZIP 512 MiB dictionary, member_size lies, .lzma dict 2^32-1 / size 2^64-1, LZMA2 chunk sizes). hostile.params: valid stream, hostile caller parameters (props 0-255, dict 0..2^32-1, size 0..2^64-1, lc/lp/pb out of range). hostile.many: up to 60000 (200000 thorough) empty XZ streams / LZIP members / 1-byte LZMA2 chunks. After the first error three more reads are issued. Monitors: panic (caught), abort / stack overflow (worker death attributed to the seed), sticky Interrupted, output cap len*20000+16 MiB, peak heap <= declared dictionary + 64*len + 4*output + 16 MiB + 2*largest read buffer.".into(),
+                assumptions: vec!["the declared dictionary size is taken from a tolerant scan of the bytes (largest plausible declaration)".into(), "allocation failure cannot be injected as a recoverable fault in Rust; requests above 8 GiB are refused and abort the worker, which is reported".into()],
                 real: real.clone(), stubs: stubs.clone(), exhaustive_part: None,
             },
             "C07" => PropMeta {
